@@ -327,8 +327,107 @@ struct Hilbert {
 };
 #endif
 
+// ---------------------------------------------------------------- where a converted field stores its cells
+// "stores coordinate c at flat position p(c)" also holds for a field obtained by conversion from another storage order:
+// the destination's array, read directly, holds cell c at the published position (row-major formula / bit interleave).
+template <Lay LS, Lay LD, size_t N>
+struct Stored {
+    using IV = cv::vector_d<std::size_t, N>;
+    using A = cb::array<cv::vector_d<float, 1>>;
+    using S0 = cb::strided<IV, A>;
+    using S = layout_t<LS, IV, A>;
+    using D = layout_t<LD, IV, A>;
+    static std::string name() { return std::string("stored/") + lay_name(LS) + "->" + lay_name(LD) + "/N=" + std::to_string(N); }
+    static Verdict run(const Case & c)
+    {
+        if ((LS == Lay::morton_bmi2 || LD == Lay::morton_bmi2) && !have_bmi2()) {
+            return std::nullopt;
+        }
+        typename S0::configuration_t e;
+        uint64_t cells = 1;
+        for (size_t k = 0; k < N; ++k) {
+            e[k] = c.ext[k];
+            cells *= c.ext[k];
+        }
+        covfie::field<S0> s0(pack(e));
+        {
+            typename covfie::field<S0>::view_t v(s0);
+            for_box(c.ext, [&](const std::vector<uint64_t> & cc) {
+                typename covfie::field<S0>::coordinate_t x;
+                for (size_t k = 0; k < N; ++k) {
+                    x[k] = cc[k];
+                }
+                v.at(x)[0] = float(uint64_t(ref::row_major(cc, c.ext)) + 1);   // < 2^24: exact
+            });
+        }
+        covfie::field<S> src(s0);
+        covfie::field<D> dst(src);
+        const auto & arr = dst.backend().get_backend();
+        const uint64_t len = arr.get_configuration()[0];
+        typename A::non_owning_data_t raw(arr);
+        Verdict bad;
+        for_box(c.ext, [&](const std::vector<uint64_t> & cc) {
+            if (bad) {
+                return;
+            }
+            uint64_t p = LD == Lay::strided ? uint64_t(ref::row_major(cc, c.ext)) : uint64_t(ref::morton(cc));
+            if (p >= len) {
+                bad = "published position " + std::to_string(p) + " of " + cstr(cc) + " lies beyond the destination's array (length " + std::to_string(len) + ")";
+                return;
+            }
+            float got = raw.at(p)[0], want = float(uint64_t(ref::row_major(cc, c.ext)) + 1);
+            if (got != want) {
+                bad = "converted field: the array element at the published position " + std::to_string(p) + " of cell " + cstr(cc) + " holds " + ld_str(got) + ", the cell's value is " + ld_str(want);
+            }
+        });
+        Hasher h;
+        h.vec(c.ext);
+        bool pow2 = true;
+        for (auto x : c.ext) {
+            pow2 = pow2 && (x & (x - 1)) == 0;
+        }
+        record(name(), !pow2 && N >= 2, h.h, [&] { return c.to_json(); });
+        return bad;
+    }
+    static void campaign()
+    {
+        // extents: a cell cap of 2^18 (allocation side^N for Morton), one long axis allowed; odd and composite extents up to 600
+        const uint64_t mx = N == 1 ? 600 : N == 2 ? 600 : N == 3 ? 60 : 22;
+        auto g = rc::gen::map(rc::gen::container<std::vector<uint64_t>>(N, in_range<uint64_t>(1, mx)), [](std::vector<uint64_t> ext) {
+            uint64_t cells = 1;
+            for (auto x : ext) {
+                cells *= x;
+            }
+            while (cells > (uint64_t(1) << 18)) {
+                size_t k = size_t(std::max_element(ext.begin(), ext.end()) - ext.begin());
+                cells /= ext[k];
+                ext[k] = (ext[k] + 1) / 2;
+                cells *= ext[k];
+            }
+            Case c;
+            c.kind = "stored";
+            c.ext = ext;
+            return c;
+        });
+        rc_campaign<Case>(name(), tier(150, 4000), 100, g, run);
+    }
+    static void reg()
+    {
+        add_inst(name(), campaign, [](const json & j) { return run(Case::from_json(j)); });
+    }
+};
+
 void register_all()
 {
+    Stored<Lay::strided, Lay::morton_port, 2>::reg();
+    Stored<Lay::strided, Lay::morton_bmi2, 2>::reg();
+    Stored<Lay::morton_port, Lay::strided, 2>::reg();
+    Stored<Lay::strided, Lay::morton_port, 3>::reg();
+    Stored<Lay::morton_bmi2, Lay::strided, 3>::reg();
+    Stored<Lay::hilbert, Lay::strided, 2>::reg();
+    Stored<Lay::strided, Lay::strided, 4>::reg();
+    Stored<Lay::strided, Lay::morton_bmi2, 4>::reg();
+    Stored<Lay::strided, Lay::morton_port, 1>::reg();
     RowMajor<std::size_t, 1>::reg();
     RowMajor<std::size_t, 2>::reg();
     RowMajor<std::size_t, 3>::reg();
